@@ -41,6 +41,11 @@ GMigrateAsm(t) ==
   /\ AttemptMigrateAsm(t) /\ Migration
   /\ hook' = Append(hook, [op |-> "migrate_asm", to |-> t])
   /\ UNCHANGED <<hist, callerT>>
+\* another (wired) thread loads a filter of its own while the call is parked at the schedule point
+GOther(t) ==
+  /\ OtherLoad(t)
+  /\ hook' = Append(hook, [op |-> "load", t |-> t, fid |-> OtherId])
+  /\ UNCHANGED <<hist, callerT>>
 GBlock(t) ==
   /\ BlockSeccomp(t)
   /\ hist' = Append(hist, [op |-> "block", t |-> t, state |-> Snap'])
@@ -66,6 +71,7 @@ GNext ==
   \/ \E p \in threads, n \in Threads : GSpawn(p, n)
   \/ \E t \in threads : GMigrate(t)
   \/ \E t \in threads : GMigrateAsm(t)
+  \/ \E t \in threads \cap Callers : GOther(t)
 GSpec == GInit /\ [][GNext]_gvars
 
 Terminal == pc = "idle" /\ loads = MaxLoads
